@@ -104,7 +104,11 @@ func vh_C10_split() {
 // (b) inductive step from an arbitrary browser jar: what Save emits, applied to the jar, loads as the saved value
 // verif: unwind=12 havoc=encryption.SignedValue steps=2000000 paths=40000 guess
 func vh_C10_step() {
-	name := vName(ndChoice("name", 2))
+	nk := 2
+	if verifThorough() {
+		nk = 7
+	}
+	name := vName(ndChoice("name", nk))
 	store := vStoreFor(name)
 	n := ndInt("session-bytes")
 	verifAssume(n >= 1 && n <= 8800)
